@@ -76,6 +76,9 @@ type Op struct {
 	Pattern   string    `json:"pattern,omitempty"`
 	Str       string    `json:"str,omitempty"`
 	LL        int       `json:"ll,omitempty"`
+	Shared    int       `json:"shared,omitempty"` // 1-based index of a schema object shared between tasks (contains no $ref)
+	Inv       uint64    `json:"-"`                // global event numbers at invoke / return (recorded histories)
+	Ret       uint64    `json:"-"`
 	OrderSeed uint64    `json:"order_seed,omitempty"`
 	Fault     *Fault    `json:"fault,omitempty"`
 	Role      string    `json:"role,omitempty"` // prefix | victim | suffix | intruder ... (informational)
@@ -270,6 +273,7 @@ func (r *faultRegistry) Validates(name, data string) bool {
 
 // Env is what operations of one run share: long-lived validators, document corpus, retained results.
 type Env struct {
+	Shared   []*spec.Schema
 	LL       []*LLValidator
 	Retained []retained // values handed to the caller earlier; re-rendered at the end of the history
 	Keep     bool       // retain returned values
@@ -387,6 +391,8 @@ func (op *Op) registry(env *Env) strfmt.Registry {
 // inputError marks operations whose inputs do not even decode: generator trouble, never a verdict.
 type inputError struct{ err error }
 
+func (e inputError) Error() string { return "harness input error: " + e.err.Error() }
+
 // Exec runs one operation under ctx and returns its canonical outcome. A panic of the library is an outcome.
 func (env *Env) Exec(op *Op, ctx *rt.OpCtx) (out Outcome) {
 	rt.BeginOp(ctx)
@@ -418,7 +424,12 @@ func (env *Env) retain(op *Op, render func() string) {
 func (env *Env) exec(op *Op) Outcome {
 	switch op.Kind {
 	case KAgainst:
-		s := must(parseSchema(op.Schema))
+		var s *spec.Schema
+		if op.Shared > 0 && op.Shared <= len(env.Shared) {
+			s = env.Shared[op.Shared-1]
+		} else {
+			s = must(parseSchema(op.Schema))
+		}
 		d := must(decodeJSON(op.Data, op.UseNumber))
 		err := validate.AgainstSchema(s, d, op.registry(env), op.schemaOpts()...)
 		env.retain(op, func() string { return errOutcome(err).Key() })
@@ -479,8 +490,7 @@ func (env *Env) exec(op *Op) Outcome {
 		env.retain(op, func() string { return errOutcome(err).Key() })
 		return errOutcome(err)
 	case KNewSpecVal:
-		doc := must(loadDoc(op))
-		sv := validate.NewSpecValidator(doc.Schema(), strfmt.Default)
+		sv := validate.NewSpecValidator(nil, strfmt.Default)
 		return Outcome{Valid: true, Extra: fmt.Sprintf("captured_coe=%v", sv.Options.ContinueOnErrors)}
 	case KSetCOE:
 		validate.SetContinueOnErrors(*op.COE)
